@@ -11,8 +11,10 @@ RULE = ("_get_slice: every multiset of 1..4 timestamps on the even grid {0,2,..,
         "get / get_slice / TsGroup.get: oracle 'exactly start <= t <= end', support unchanged, nearest sample, units s/ms/us; "
         "to_trial_tensor / trial_count / build_tensor / warp_tensor: trial sets with unequal durations and trials holding "
         "no sample or no bin, align start/end, padding, Tsd/TsdFrame/Ts/TsGroup. distinct = distinct (timestamps, window, mode)")
-PROVED = "get_window: restrict-mode slice = exactly the positions with start <= t <= end (sorted t, any length, duplicates); get_rejects_inverted"
-NOT_PROVED = "nearest-sample form, before_t/after_t/closest_t with end, trial tensor layout, trial_count == count, warp == count: oracle + correspondence"
+PROVED = ("get_window: restrict-mode slice = exactly the positions with start <= t <= end (sorted t, any length, duplicates); "
+          "get_rejects_inverted; get_nearest: x.get(start) returns slice (i, i+1) of a sample at least as close to start as every other "
+          "(any non-empty sorted series, start before / inside / after the data, ties to the later sample, Python's wrap-around t[-1] read)")
+NOT_PROVED = "before_t / after_t / closest_t with end, trial tensor layout, trial_count == count, warp == count: oracle + correspondence"
 ASSUMPTIONS = ["series non-empty and sorted (C04)"]
 MODES = ["before_t", "after_t", "closest_t", "restrict"]
 
